@@ -171,6 +171,10 @@ func runPerm(t *testing.T, rc *RunCtx) {
 		client := w.pickClient()
 		a := pop.Accts[ch.Pick(len(pop.Accts), 0)]
 		byKey := ch.Pick(3, 0) == 2
+		keyPad := 0
+		if !byKey && ch.Pick(8, 0) == 7 {
+			keyPad = 1 + ch.Pick(2, 0) // addressed by public key followed by junk bytes (resolves to the same account)
+		}
 		opIdx := ch.Pick(len(permOps), 0)
 		op := permOps[opIdx]
 		ctx := inst.ClientCtx(client, "")
@@ -182,21 +186,21 @@ func runPerm(t *testing.T, rc *RunCtx) {
 		switch op {
 		case "Sign":
 			o := &Op{Kind: "gen", Client: client, Entries: []Entry{GenEntry(a.idx, MkDomain([4]byte{7, 0, 0, 0}, ep), uint64(i+1))}}
-			o.Entries[0].ByKey = byKey
+			o.Entries[0].ByKey, o.Entries[0].KeyPad = byKey, keyPad
 			if ch.Pick(4, 0) == 3 {
 				o.Kind = "multi"
 			}
 			served = o.Exec(inst).OK(0)
 		case "Sign beacon attestation":
 			o := &Op{Kind: "att", Client: client, Entries: []Entry{AttEntry(a.idx, ep, ep+1, uint64(i+1))}}
-			o.Entries[0].ByKey = byKey
+			o.Entries[0].ByKey, o.Entries[0].KeyPad = byKey, keyPad
 			if ch.Pick(4, 0) == 3 {
 				o.Kind = "atts"
 			}
 			served = o.Exec(inst).OK(0)
 		case "Sign beacon proposal":
 			o := &Op{Kind: "prop", Client: client, Entries: []Entry{PropEntry(a.idx, ep, uint64(i+1))}}
-			o.Entries[0].ByKey = byKey
+			o.Entries[0].ByKey, o.Entries[0].KeyPad = byKey, keyPad
 			served = o.Exec(inst).OK(0)
 		case "Access account":
 			res, err := inst.ListerH.ListAccounts(ctx, &pb.ListAccountsRequest{Paths: []string{a.Wallet + "/" + regexp.QuoteMeta(a.Name)}})
